@@ -988,6 +988,8 @@ type membershipAllower struct {
 	roomVersionImpl IRoomVersion
 	// The m.room.third_party_invite content referenced by this event.
 	thirdPartyInvite ThirdPartyInviteContent
+	// The sender of the m.room.third_party_invite event referenced by this event.
+	thirdPartyInviteSender spec.SenderID
 	// The user ID of the user whose membership is changing.
 	targetID string
 	// The user ID of the user who sent the membership event.
@@ -1030,6 +1032,13 @@ func (a *allowerContext) newMembershipAllower(authEvents AuthEventProvider, even
 		token := m.newMember.ThirdPartyInvite.Signed.Token
 		if m.thirdPartyInvite, err = NewThirdPartyInviteContentFromAuthEvents(authEvents, token); err != nil {
 			return
+		}
+		var thirdPartyInviteEvent PDU
+		if thirdPartyInviteEvent, err = authEvents.ThirdPartyInvite(token); err != nil {
+			return
+		}
+		if thirdPartyInviteEvent != nil {
+			m.thirdPartyInviteSender = thirdPartyInviteEvent.SenderID()
 		}
 	}
 	return
@@ -1166,6 +1175,18 @@ func (m *membershipAllower) membershipAllowedSelfForRestrictedJoin() error {
 // membershipAllowedFronThirdPartyInvite determines if the member events is following
 // up the third_party_invite event it claims.
 func (m *membershipAllower) membershipAllowedFromThirdPartyInvite() error {
+	// A banned user cannot be invited, not even through a third party invite.
+	if m.oldMember.Membership == spec.Ban {
+		return errorf("The invite target %s is banned", m.targetID)
+	}
+	// Only the user who sent the m.room.third_party_invite event may turn it
+	// into an invite.
+	if m.senderID != string(m.thirdPartyInviteSender) {
+		return errorf(
+			"The invite sender %s doesn't match the sender of the third party invite %s",
+			m.senderID, m.thirdPartyInviteSender,
+		)
+	}
 	// Check if the event's target matches with the Matrix ID provided by the
 	// identity server.
 	if m.targetID != m.newMember.ThirdPartyInvite.Signed.MXID {
